@@ -188,6 +188,23 @@ CLAIMS = {
         technique="typestate/tag analysis, guarded-growth analysis, units-of-measure inference, path-wise must-"
                   "precede analysis on structured control flow",
     ),
+    "C07": dict(
+        category="other",
+        text="Decided for every literal-typed grammar and input: every function reachable (resolved call graph plus "
+             "the two function-pointer tables) from a constexpr construction, parse or match is constexpr, structured, "
+             "has literal locals and calls only constexpr library functions, which covers the error, recovery, "
+             "verbose and diagnostic paths that the single constexpr test never evaluates (CEX); no code branches on "
+             "is_constant_evaluated (NOFORK); the run-time undefined behaviours that the constant evaluator rejects "
+             "are excluded structurally (TAG, EMPTY, ITER); the three buffer classes are const siblings with the "
+             "same meaning of begin/end/get_view (BUF); stack types are chosen per buffer kind as documented "
+             "(STACKSEL); the only buffer-dependent behaviour is the fixed stack capacity (CAP-S: recorded findings). "
+             "A compile-fail witness (CEVAL: constexpr parses of rejected inputs must compile) accompanies the rules.",
+        design_ref="DESIGN.md 5/C07",
+        note=TB + " Not decided: equality of compile-time and run-time results as such; compiler-specific limits of "
+                  "constant evaluation (g++ is used for the witness in the thorough tier only).",
+        technique="constexpr-closure over the resolved call graph, sibling-implementation agreement on canonical "
+                  "forms, typestate rules, compile-fail witness",
+    ),
 }
 
 NOT_APPLICABLE = {
